@@ -53,9 +53,9 @@ theorem objHasBadBB_of (h : Heap K) (o : Nat) (A : Obj K) (m : HTree K) (hA : h.
 
 /-- the only store `Empirical1D` construction makes into an existing cell -/
 theorem newEmpirical_writes (fx : Fixes) (h : Heap K) (kind : Kind) (x y : Nat) (xc yc : List K)
-    (keep : Bool) (md : Option Nat) (f0 : Bool) :
-    ∀ l ∈ writeSet (newEmpirical fx h kind x y xc yc keep md f0).1,
-      l ∈ hidden fx h (.newEmpirical kind x y xc yc keep md f0) := by
+    (keep : Bool) (md : Option Nat) (f0 : Bool) (zi : Option (K × ZType)) :
+    ∀ l ∈ writeSet (newEmpirical fx h kind x y xc yc keep md f0 zi).1,
+      l ∈ hidden fx h (.newEmpirical kind x y xc yc keep md f0 zi) := by
   intro l hl
   unfold newEmpirical at hl
   split at hl
@@ -75,7 +75,7 @@ theorem newEmpirical_writes (fx : Fixes) (h : Heap K) (kind : Kind) (x y : Nat) 
               else []
             else [Effect.allocArr ⟨if (!keep && (cellData cy yc).any fun v => decide (v < 0)) = true
                 then (clipNeg false (cellData cy yc)).1 else cellData cy yc, .ndarray, false⟩] : List (Effect K)),
-            l ∈ hidden fx h (.newEmpirical kind x y xc yc keep md f0) := by
+            l ∈ hidden fx h (.newEmpirical kind x y xc yc keep md f0 zi) := by
           intro l hl
           by_cases ha : cy.container.aliased = true
           · rw [if_pos ha] at hl
@@ -334,9 +334,10 @@ theorem writes_classified (fx : Fixes) (env : HEnv K) (h : Heap K) (c : Call K) 
   intro l hl
   unfold writes at hl
   cases c with
-  | newEmpirical kind x y xc yc keep md f0 => exact Or.inr (newEmpirical_writes fx h kind x y xc yc keep md f0 l hl)
-  | newAnalytic kind lf => simp [effects, writeSet_cons, writeSet_nil, Effect.loc] at hl
-  | newBlackBody temp label => simp [effects, writeSet_cons, writeSet_nil, Effect.loc] at hl
+  | newEmpirical kind x y xc yc keep md f0 zi =>
+    exact Or.inr (newEmpirical_writes fx h kind x y xc yc keep md f0 zi l hl)
+  | newAnalytic kind lf zi => simp [effects, writeSet_cons, writeSet_nil, Effect.loc] at hl
+  | newBlackBody temp label zi => simp [effects, writeSet_cons, writeSet_nil, Effect.loc] at hl
   | sample o w conv => exact Or.inr (by simpa [hidden] using sampleCall_writes fx env h o w conv l hl)
   | arith op a b =>
     simp only [effects, arith] at hl
